@@ -23,6 +23,7 @@ def run(ctx):
         eigsbase.flag_and_status_writers(ctx, base)
         eigsbase.accessor_agreement(ctx, base)
         eigsbase.coherent_permutation(ctx, base)
+        eigsbase.final_sort_never_skipped(ctx, base)
         eigsbase.counter_identity(ctx, base)
         eigsbase.restart_bound(ctx, base)
         eigsbase.initial_state(ctx, base)
